@@ -394,6 +394,10 @@ let sim_main () =
        | ["connect"; c; m] -> do_step (EBase (StConnect (n_of_dec c, n_of_dec m)))
        | ["authorize"; c] -> do_step (EBase (StAuthorize (n_of_dec c)))
        | ["disconnect"; c] -> do_step (EBase (StDisconnect (n_of_dec c)))
+       | ["reconnect"; c; m] ->
+         (* the backend re-establishes the connection without reporting Disconnected: for the model a disconnect immediately
+            followed by a connect, with no client frame in between *)
+         do_step (EBase (StDisconnect (n_of_dec c))); do_step (EBase (StConnect (n_of_dec c, n_of_dec m)))
        | [("deliver" | "drop") as verb; c; dir; ch; w] ->
          let chn = int_of_string ch in
          let s2c = (dir = "s2c") in
